@@ -1,1 +1,308 @@
-fn main() { eprintln!("not built yet"); std::process::exit(2); }
+//! vp-codec — monitor for C09: every packet encodes to the Minecraft wire layout and decodes back
+//! losslessly.
+//!
+//! The real `passage-packets` writer and reader (default features: every packet type has both) are
+//! run on generated values and judged against `vp_common::refcodec`, an independent codec written
+//! from the protocol documentation:
+//!   (a) crate bytes == reference bytes, crate id == protocol id, `write_packet` frame == reference frame;
+//!   (b) crate reader on the reference bytes == original value, all bytes consumed;
+//!   (c) VarInt / VarLong: bytes == reference bytes (<= 5 / <= 10), read(write(v)) == v;
+//!   (d) undefined enum ordinals rejected, defined ones decode to the documented variant;
+//!   (e) text components: plain strings byte-exact, JSON objects compared semantically through the
+//!       independent NBT reader in both directions.
+
+mod cases;
+mod exec;
+mod packets;
+mod varnum;
+
+use cases::Cfg;
+use packets::Ctx;
+use serde_json::{Value, json};
+use varnum::{Kind, Stats};
+use vp_common::report::{self, par_map};
+use vp_common::{Cli, Report, Rng, Tier};
+
+const RULE: &str = "packets: for each of the 41 packet types of handshake/status/login/configuration, one case per value of every \
+field's boundary pool (other fields typical) plus random combinations of pool values; a packet case is non-trivial when the type \
+has fields, and distinct by (type, per-field class: string length bucket 0 / <128 / <16384 / longer and widest UTF-8 sequence, \
+exact integer below 65536 else sign and bit length, boolean, none/some, nested text-component shape); unit-struct placeholder \
+packets are trivial. enums: distinct by (field, ordinal). VarInt/VarLong: conservatively distinct by unsigned bit length only \
+(33 + 65 classes) although every evaluated value is a different number; 'observed' has the number of values evaluated.";
+
+enum Item {
+    Sweep(&'static str),
+    Random(&'static str, u64),
+    Enums,
+}
+
+fn run_item(base: &Report, cli: &Cli, cfg: &Cfg, idx: usize, item: &Item) -> Report {
+    let mut rep = base.fork();
+    let mut rng = Rng::stream(cli.seed, 0x1000 + idx as u64);
+    match item {
+        Item::Sweep(p) => {
+            let spec = cases::spec_for(p, &mut rng, cfg);
+            let trivial = spec.is_empty();
+            cases::sweep_cases(p, &spec, |case| {
+                if trivial {
+                    rep.eval(None);
+                } else {
+                    rep.eval(Some(&cases::case_class(&case)));
+                }
+                packets::run_case(&mut Ctx { rep: &mut rep, sample: false }, &case);
+            });
+        }
+        Item::Random(p, n) => {
+            let spec = cases::spec_for(p, &mut rng, cfg);
+            for _ in 0..*n {
+                let case = cases::random_case(p, &spec, &mut rng);
+                rep.eval(Some(&cases::case_class(&case)));
+                packets::run_case(&mut Ctx { rep: &mut rep, sample: false }, &case);
+            }
+        }
+        Item::Enums => {
+            for case in cases::enum_cases(&mut rng, cfg, packets::ENUM_FIELDS) {
+                rep.eval(Some(&cases::case_class(&case)));
+                packets::run_case(&mut Ctx { rep: &mut rep, sample: false }, &case);
+            }
+        }
+    }
+    rep
+}
+
+fn packet_workload(report: &mut Report, cli: &Cli, cfg: &Cfg) {
+    let per_type = cfg.scaled(if cfg.thorough { 10_000 } else { 1000 });
+    let batch = 50u64;
+    let mut items: Vec<Item> = vec![Item::Enums];
+    for p in cases::PACKETS {
+        items.push(Item::Sweep(p));
+        let probe = cases::spec_for(p, &mut Rng::new(0), &Cfg { scale: 0.0, thorough: false });
+        if probe.is_empty() {
+            continue; // a placeholder has exactly one value
+        }
+        let mut left = per_type;
+        while left > 0 {
+            let n = left.min(batch);
+            items.push(Item::Random(p, n));
+            left -= n;
+        }
+    }
+    let base = report.fork();
+    let results = par_map(items, cli.threads(), |i, item| run_item(&base, cli, cfg, i, item));
+    for r in results {
+        report.merge(r);
+    }
+}
+
+// ---------------------------------------------------------------------------------------------
+// VarInt / VarLong workloads
+
+fn int_boundaries(w: u32) -> Vec<i32> {
+    // 0 (wrapping to -1, -2, ..), every power of two (2^31 = i32::MIN, wrapping to i32::MAX) and
+    // every 7-bit group boundary, each with its neighbourhood of +-w
+    let mut centers: Vec<u32> = vec![0];
+    centers.extend((0..32).map(|k| 1u32 << k));
+    let mut out = vec![];
+    for c in centers {
+        out.push(c as i32);
+        for d in 1..=w {
+            out.push(c.wrapping_add(d) as i32);
+            out.push(c.wrapping_sub(d) as i32);
+        }
+    }
+    out.sort_unstable();
+    out.dedup();
+    out
+}
+
+fn long_boundaries(w: u64) -> Vec<i64> {
+    // powers of two include the 7-bit group boundaries 2^7 .. 2^63, the sign boundary 2^63 =
+    // i64::MIN (wrapping to i64::MAX) and the 32-bit boundaries
+    let mut centers: Vec<u64> = vec![0];
+    centers.extend((0..64).map(|k| 1u64 << k));
+    let mut out = vec![];
+    for c in centers {
+        out.push(c as i64);
+        for d in 1..=w {
+            out.push(c.wrapping_add(d) as i64);
+            out.push(c.wrapping_sub(d) as i64);
+        }
+    }
+    out.sort_unstable();
+    out.dedup();
+    out
+}
+
+fn random_u32(rng: &mut Rng) -> u32 {
+    if rng.bool() {
+        rng.u32()
+    } else {
+        // uniform over bit lengths, so that short encodings are as frequent as long ones
+        let bits = rng.below(33) as u32;
+        if bits == 0 { 0 } else { (rng.u32() >> (32 - bits)) | (1 << (bits - 1)) }
+    }
+}
+
+fn random_u64(rng: &mut Rng) -> u64 {
+    if rng.bool() {
+        rng.u64()
+    } else {
+        let bits = rng.below(65) as u32;
+        if bits == 0 { 0 } else { (rng.u64() >> (64 - bits)) | (1 << (bits - 1)) }
+    }
+}
+
+enum VarItem {
+    IntRange(u32, u32),
+    IntList(Vec<i32>),
+    LongList(Vec<i64>),
+    IntRandom(u64),
+    LongRandom(u64),
+}
+
+fn varnum_workload(report: &mut Report, cli: &Cli, cfg: &Cfg) {
+    let window = cfg.scaled(300);
+    let exhaustive = cfg.thorough && cfg.scale >= 1.0;
+    let mut items: Vec<VarItem> = vec![];
+    for chunk in long_boundaries(window).chunks(4096) {
+        items.push(VarItem::LongList(chunk.to_vec()));
+    }
+    let split = |total: u64, items: &mut Vec<VarItem>, make: fn(u64) -> VarItem| {
+        let parts = 64u64;
+        let each = total.div_ceil(parts);
+        let mut left = total;
+        while left > 0 {
+            let n = left.min(each);
+            items.push(make(n));
+            left -= n;
+        }
+    };
+    split(cfg.scaled(if cfg.thorough { 10_000_000 } else { 1_000_000 }), &mut items, VarItem::LongRandom);
+    if exhaustive {
+        for i in 0..4096u32 {
+            items.push(VarItem::IntRange(i << 20, (i << 20) | 0xf_ffff));
+        }
+    } else {
+        for chunk in int_boundaries(window as u32).chunks(4096) {
+            items.push(VarItem::IntList(chunk.to_vec()));
+        }
+        split(cfg.scaled(if cfg.thorough { 10_000_000 } else { 2_000_000 }), &mut items, VarItem::IntRandom);
+    }
+    let seed = cli.seed;
+    let results = par_map(items, cli.threads(), |i, item| {
+        let mut st = Stats::default();
+        let mut rng = Rng::stream(seed, 0x9000_0000 + i as u64);
+        match item {
+            VarItem::IntRange(lo, hi) => varnum::sweep_ints((*lo..=*hi).map(|u| u as i32), &mut st),
+            VarItem::IntList(l) => varnum::sweep_ints(l.iter().copied(), &mut st),
+            VarItem::LongList(l) => varnum::sweep_longs(l.iter().copied(), &mut st),
+            VarItem::IntRandom(n) => varnum::sweep_ints((0..*n).map(|_| random_u32(&mut rng) as i32), &mut st),
+            VarItem::LongRandom(n) => varnum::sweep_longs((0..*n).map(|_| random_u64(&mut rng) as i64), &mut st),
+        }
+        st
+    });
+    let mut total = Stats::default();
+    for st in results {
+        total.merge(st);
+    }
+    if exhaustive && total.ints != 1u64 << 32 {
+        report.inconclusive_fatal(&format!("the exhaustive VarInt sweep evaluated {} values instead of 2^32", total.ints));
+    }
+    report.set("varint_exhaustive", json!(exhaustive && total.ints == 1u64 << 32));
+    report.set(
+        "varint_workload",
+        json!(if exhaustive {
+            "all 2^32 VarInt values".to_string()
+        } else {
+            format!("every value within +-{window} of 0, of each power of two and of each 7-bit group boundary, plus random values (half uniform, half uniform over bit lengths)")
+        }),
+    );
+    report.set(
+        "varlong_workload",
+        json!(format!("every value within +-{window} of 0, of each power of two (7-bit group boundaries, 32-bit and sign boundaries, i64::MIN/MAX included), plus random values (half uniform, half uniform over bit lengths)")),
+    );
+    varnum::emit(report, &total);
+}
+
+fn var_single(report: &mut Report, kind: Kind, v: i64, sample: bool) {
+    let mut st = Stats::default();
+    match kind {
+        Kind::Int => varnum::sweep_ints(std::iter::once(v as i32), &mut st),
+        Kind::Long => varnum::sweep_longs(std::iter::once(v), &mut st),
+    }
+    varnum::emit(report, &st);
+    if sample {
+        report.sample(json!({"case": varnum::case_json(kind, v), "observed": varnum::describe(kind, v)}));
+    }
+}
+
+/// Runs any materialised case (replay files and the written-out samples).
+fn run_any(report: &mut Report, case: &Value, sample: bool) {
+    match case.get("kind").and_then(|k| k.as_str()) {
+        Some("varint") | Some("varlong") => {
+            let kind = if case["kind"] == "varint" { Kind::Int } else { Kind::Long };
+            match case.get("value").and_then(|v| v.as_i64()) {
+                Some(v) if kind == Kind::Long || i32::try_from(v).is_ok() => var_single(report, kind, v, sample),
+                _ => report.inconclusive_fatal("harness error: malformed varint/varlong case"),
+            }
+        }
+        _ => {
+            report.eval(Some(&cases::case_class(case)));
+            packets::run_case(&mut Ctx { rep: report, sample }, case);
+        }
+    }
+}
+
+fn samples(report: &mut Report) {
+    let picks = [
+        json!({"kind": "packet", "packet": "Handshake", "fields": {"protocol": 769, "address": "mc.example.org", "port": 25565, "next_state": 3}}),
+        json!({"kind": "packet", "packet": "Transfer", "fields": {"host": "lobby-ü.example.org", "port": 65535}}),
+        json!({"kind": "packet", "packet": "ConfDisconnect", "fields": {"reason": {"json": {"text": "Grüße", "bold": true, "extra": [{"text": "x", "color": "red"}]}}}}),
+        json!({"kind": "packet", "packet": "AddResourcePack", "fields": {"uuid": "00112233445566778899aabbccddeeff", "url": "https://example.org/p.zip", "hash": "da39a3ee5e6b4b0d3255bfef95601890afd80709", "forced": true, "prompt": {"plain": "Bitte akzeptieren €"}}}),
+        json!({"kind": "packet", "packet": "LoginCookieResponse", "fields": {"key": "passage:session", "payload": null}}),
+        json!({"kind": "enum", "field": "ClientInformation.main_hand", "ordinal": 2}),
+        json!({"kind": "enum", "field": "Handshake.next_state", "ordinal": 3}),
+        json!({"kind": "varint", "value": -1}),
+        json!({"kind": "varlong", "value": -1}),
+        json!({"kind": "varlong", "value": i64::MAX}),
+    ];
+    for case in picks {
+        run_any(report, &case, true);
+    }
+}
+
+fn main() {
+    let cli = Cli::parse();
+    report::watchdog(&cli.prop, 1500);
+    let mut report = Report::new(&cli, "exploration", RULE);
+    report.set_max_samples(10);
+    if cli.prop != "C09" {
+        report.inconclusive_fatal(&format!("vp-codec decides C09 only, not {}", cli.prop));
+        std::process::exit(report.finish());
+    }
+
+    report.assume("vp_common::refcodec (literal id table, field order, VarInt/VarLong, strings, network NBT) is a faithful transcription of the Minecraft Java protocol documentation; its VarInt/VarLong agree with the documentation's sample table");
+    report.assume("in-memory I/O: every read and write completes at once, futures are polled with a no-op waker; chunked or pending transports are the subject of other properties");
+    report.assume("field values stay within protocol limits per field (String(n) limits in UTF-16 units, valid identifiers, cookie payload <= 5120 bytes, NBT strings <= 65535 bytes); behaviour beyond them is not judged");
+    report.assume("booleans are written as 0/1; what the crate's read_bool makes of other bytes is not judged");
+    report.assume("text components: plain text never starts with '{' (the crate's String API treats that as the JSON form); text is restricted to code points whose UTF-8 equals Java's modified UTF-8 (no NUL, no supplementary planes); JSON forms (string, boolean, integer, nested compound, homogeneous list values) are compared as values after mapping booleans to 0/1, never as bytes or key order");
+    report.assume("LoginSuccess has no properties in the crate's value type, so only the property count 0 is exercised; EncryptionRequest.verify_token is a fixed [u8; 32] in the crate, so only 32-byte tokens are exercised; unit-struct placeholder packets are checked for id and empty body only");
+
+    if let Some(path) = cli.replay.clone() {
+        let case = std::fs::read_to_string(&path)
+            .ok()
+            .and_then(|t| serde_json::from_str::<Value>(&t).ok())
+            .and_then(|v| v.get("witness").and_then(|w| w.get("case")).cloned().or_else(|| v.get("case").cloned()));
+        match case {
+            Some(case) => run_any(&mut report, &case, true),
+            None => report.inconclusive_fatal(&format!("cannot read a case from {}", path.display())),
+        }
+        std::process::exit(report.finish());
+    }
+
+    let cfg = Cfg { scale: cli.scale(), thorough: cli.tier == Tier::Thorough };
+    samples(&mut report);
+    packet_workload(&mut report, &cli, &cfg);
+    varnum_workload(&mut report, &cli, &cfg);
+    std::process::exit(report.finish());
+}
